@@ -72,6 +72,13 @@ var behLib = []behGeneric{
 	{name: "Fib", params: []string{"T"}, goCons: []string{behNum}, decl: "(n T) T { if n <= 2 { return 1 }; return @{Fib|T}(n-1) + @{Fib|T}(n-2) }"},
 	{name: "Compose", params: []string{"A", "B", "C"}, goCons: []string{"any", "any", "any"}, decl: "(f func(A) B, g func(B) C) func(A) C { return func(a A) C { return g(f(a)) } }"},
 	{name: "Apply2", params: []string{"T"}, goCons: []string{"any"}, decl: "(x T, f func(T) T) T { return @{Compose|T,T,T}(f, f)(x) }"},
+	// bodies that read AND write file-scope variables and call file-scope functions: the instance must
+	// be materialised in the Env of the declaring scope wherever it is referenced from
+	{name: "Affine", params: []string{"T"}, goCons: []string{behNum}, decl: "(x T) T { return x*T(gScale) + T(gOffset) }"},
+	{name: "Tally", params: []string{"T"}, goCons: []string{"any"}, decl: "(x T) int { gCount++; gLog = append(gLog, fmt.Sprint(x)); return gBump(len(gLog)) }"},
+	{name: "Affine2", params: []string{"T"}, goCons: []string{behNum}, decl: "(x T) T { gOffset++; return @{Affine|T}(@{Affine|T}(x)) }"},
+	{name: "Acc", params: []string{"T"}, goCons: []string{behNum}, decl: "(xs []T) T { var s T; for _, x := range xs { s += x * T(gScale); gCount++ }; return s }"},
+	{name: "Stamp", params: []string{"K", "V"}, goCons: []string{"any", "any"}, decl: "(k K, v V) @{Pair|K,string} { return @{MkPair|K,string}(k, fmt.Sprint(v, \"#\", gBump(1), gScale)) }"},
 	// constant parameters (no Go rendering)
 	{name: "Vec", params: []string{"T", "N"}, consts: []bool{false, true}, isType: true, decl: "[N]T"},
 	{name: "Fill", params: []string{"T", "N"}, consts: []bool{false, true}, decl: "(x T) @{Vec|T,N} { var a @{Vec|T,N}; for i := range a { a[i] = x }; return a }"},
@@ -201,6 +208,7 @@ type behCall struct {
 	alias  map[string]string
 	expr   string // with @{..} placeholders
 	specOK bool   // the hand-specialised rendering exists (no local named types)
+	shape  int    // where the instance is referenced from: see behShapes
 }
 
 type behProg struct {
@@ -237,7 +245,12 @@ var behTypes = []behType{
 	{"@{Pair|string,[]int}", "other", false, []string{`@{Pair|string,[]int}{"k", []int{1}}`, `@{Pair|string,[]int}{}`, `@{Pair|string,[]int}{"m", nil}`}},
 }
 
-const behGlobals = `type MyInt int
+const behGlobals = `var gScale = 10
+var gOffset = 1
+var gCount = 0
+var gLog []string
+func gBump(n int) int { gCount += n; return gCount }
+type MyInt int
 type MyStr string
 type Point struct{ X, Y int }
 `
@@ -297,6 +310,10 @@ func behGenProg(seed int) *behProg {
 			tn, un = names[0], names[1]
 		}
 		k := r.Intn(21)
+		if r.Intn(5) < 2 {
+			// generics over file-scope state
+			k = 21 + r.Intn(5)
+		}
 		if (k == 18 || k == 20) && r.Intn(3) != 0 {
 			// programs with constant parameters or generic aliases have no compiled-Go rendering: keep them rarer
 			k = r.Intn(18)
@@ -358,6 +375,23 @@ func behGenProg(seed int) *behProg {
 			p.hasC = true
 			n := 1 + r.Intn(3)
 			c.expr = fmt.Sprintf("fmt.Sprint(@{Fill|%s,%d}(%s), @{AddN|%d}(10), len(@{Vec|%s,%d}{}))", tn, n, t.vals[0], n+1, tn, n)
+		case 21:
+			t = p.pickType(r, num)
+			c.alias, c.site = nil, nil
+			c.expr = fmt.Sprintf("@{Affine|%s}(%s)", t.text, t.vals[0])
+		case 22:
+			c.expr = fmt.Sprintf("fmt.Sprint(@{Tally|%s}(%s), gCount, len(gLog))", tn, t.vals[1])
+		case 23:
+			t = p.pickType(r, num)
+			c.alias, c.site = nil, nil
+			c.expr = fmt.Sprintf("fmt.Sprint(@{Affine2|%s}(%s), gOffset)", t.text, t.vals[2])
+		case 24:
+			t = p.pickType(r, num)
+			c.alias, c.site = nil, nil
+			c.expr = fmt.Sprintf("fmt.Sprint(@{Acc|%s}(%s), gCount)", t.text, behSlice(t))
+		case 25:
+			// the instance is taken as a value first, called later
+			c.expr = fmt.Sprintf("func() string { h := @{Stamp|%s,%s}; p := h(%s, %s); return fmt.Sprint(p.Key, p.Val) }()", tn, un, t.vals[0], u.vals[1])
 		case 20:
 			// generic aliases: the instance IS the aliased type
 			p.hasC = true
@@ -371,10 +405,14 @@ func behGenProg(seed int) *behProg {
 			// (no nil literal for a pointer to a recursive type: gomacro fails on P(nil, x) even without generics)
 			c.expr = fmt.Sprintf("fmt.Sprint(@{Twice|E}(%s), @{Wrap|E}(%s).V, len(@{ToSlice|E}(@{FromSlice|E}([]E{%s}))))", under[1], under[1], under[1])
 		}
+		c.shape = r.Intn(len(behShapes))
+		if c.shape == 0 && len(c.site) > 0 {
+			c.shape = 1 + r.Intn(len(behShapes)-1)
+		}
 		p.calls = append(p.calls, c)
 		if r.Intn(3) == 0 {
 			// the same instantiation again from the top level (must hit the cache)
-			c2 := behCall{expr: behSubstParams(c.expr, keysOf(c.alias), valsOf(c.alias)), specOK: c.specOK}
+			c2 := behCall{expr: behSubstParams(c.expr, keysOf(c.alias), valsOf(c.alias)), specOK: c.specOK, shape: r.Intn(len(behShapes))}
 			if c.specOK && len(c.site) > 0 {
 				p.calls = append(p.calls, c2)
 			}
@@ -485,6 +523,40 @@ func behSubstParamsKeepRefs(s string, params, args []string) string {
 	return behSubstParams(s, params, args)
 }
 
+// Where the instance is referenced from.  %D = local declarations of the site (type aliases named like
+// the parameters, local named types), %E = the expression.  The enclosing function always has local int
+// variables of its own, so that an instance materialised in the wrong Env computes with them.
+// Env depth below the file scope: 0 file scope; 1 function body (and blocks without bindings);
+// 2 for/range with :=, if/switch with init statement, block with a local variable, closure in a function
+// body; 3 and 4 combinations (closure in a loop, if-init in a loop, loop in a closure in a loop ...).
+var behShapes = []string{
+	"", // file scope: the call is evaluated directly
+	"%D; a, s := 7, 5; _, _ = a, s; return fmt.Sprint(%E)",
+	"%D; a, s := 7, 5; _, _ = a, s; if a > 0 { return fmt.Sprint(%E) }; return \"\"",
+	"%D; a, s := 7, \"\"; for i := 0; i < 2; i++ { s += fmt.Sprint(%E, i, a, \";\") }; return s",
+	"%D; a, s := 7, 5; _ = s; if b := a + 1; b > 0 { return fmt.Sprint(%E, b) }; return \"\"",
+	"%D; a, s := 7, 5; _ = s; g := func(b int) string { return fmt.Sprint(%E, b) }; return g(a)",
+	"%D; a, s := 7, \"\"; for _, x := range []int{a, 2} { s += fmt.Sprint(%E, x, \";\") }; return s",
+	"%D; a, s := 7, 5; _ = s; { c := a + 1; return fmt.Sprint(%E, c) }",
+	"%D; a, s := 7, 5; _ = s; switch b := a * 2; b { case 14: return fmt.Sprint(%E, b) }; return \"\"",
+	"%D; a, s := 7, \"\"; for i := 0; i < 2; i++ { g := func() string { return fmt.Sprint(%E, i, a) }; s += g() + \";\" }; return s",
+	"%D; a, s := 7, \"\"; for i := 0; i < 2; i++ { if k := i + a; k > 0 { s += fmt.Sprint(%E, k, \";\") } }; return s",
+	"%D; a, s := 7, 5; _ = s; g := func(b int) string { r := \"\"; for j := 0; j < 2; j++ { r += fmt.Sprint(%E, j, b, \";\") }; return r }; return g(a)",
+	"%D; a, s := 7, \"\"; for i := 0; i < 2; i++ { j := i; if k := j + a; k >= 0 { g := func() string { return fmt.Sprint(%E, k) }; s += g() + \";\" } }; return s",
+	"%D; a, s := 7, 5; _ = s; g := func(b int) func() string { c := b + 1; return func() string { d := c; if e := d + 1; e > 0 { return fmt.Sprint(%E, e) }; return \"\" } }; return g(a)()",
+}
+
+// the function wrapped around a call (shape 0: none)
+func behWrap(name string, shape int, decls, expr string) (decl, call string) {
+	if shape == 0 {
+		return "", "fmt.Sprint(" + expr + ")"
+	}
+	body := strings.Replace(behShapes[shape], "%D", decls, 1)
+	body = strings.TrimPrefix(body, "; ")
+	body = strings.Replace(body, "%E", expr, 1)
+	return "func " + name + "() string { " + body + " }\n", name + "()"
+}
+
 func (p *behProg) render(mode int) (decls string, calls []string, ss *behSpecSet) {
 	var b strings.Builder
 	b.WriteString(p.globals)
@@ -526,18 +598,16 @@ func (p *behProg) render(mode int) (decls string, calls []string, ss *behSpecSet
 				e = behSubstParams(e, keysOf(c.alias), valsOf(c.alias))
 			}
 			expr = behExpand(e, func(n string, a []string) string { return ss.need(n, a) })
-			calls = append(calls, "fmt.Sprint("+expr+")")
+			d, call := behWrap("site"+strconv.Itoa(i), c.shape, "", expr)
+			b.WriteString(d)
+			calls = append(calls, call)
 			continue
 		}
 		expr = behExpand(c.expr, func(n string, a []string) string { return behRef(mode, n, a) })
-		if len(c.site) == 0 {
-			calls = append(calls, "fmt.Sprint("+expr+")")
-		} else {
-			fn := "site" + strconv.Itoa(i)
-			site := behExpand(strings.Join(c.site, "; "), func(n string, a []string) string { return behRef(mode, n, a) })
-			b.WriteString("func " + fn + "() string { " + site + "; return fmt.Sprint(" + expr + ") }\n")
-			calls = append(calls, fn+"()")
-		}
+		site := behExpand(strings.Join(c.site, "; "), func(n string, a []string) string { return behRef(mode, n, a) })
+		d, call := behWrap("site"+strconv.Itoa(i), c.shape, site, expr)
+		b.WriteString(d)
+		calls = append(calls, call)
 	}
 	if mode == behSpec {
 		// specialised declarations (types and functions may refer to each other in any order:
@@ -710,6 +780,19 @@ func c35behExec(arg string) Result {
 	}
 	if p.hasC {
 		res.Tags = append(res.Tags, "beh-no-go-rendering")
+	}
+	seenShape := map[int]bool{}
+	for _, c := range p.calls {
+		if !seenShape[c.shape] && p.fixed == "" {
+			seenShape[c.shape] = true
+			res.Tags = append(res.Tags, "beh-shape-"+strconv.Itoa(c.shape))
+		}
+	}
+	for _, n := range []string{"Affine#[", "Tally#[", "Affine2#[", "Acc#[", "Stamp#["} {
+		if strings.Contains(strings.Join(callsG, " ")+declsG[strings.Index(declsG, "type MyInt"):], n) {
+			res.Tags = append(res.Tags, "beh-file-scope-state")
+			break
+		}
 	}
 	if strings.Contains(declsG+strings.Join(callsG, " "), "Some#[") {
 		res.Tags = append(res.Tags, "beh-generic-alias")
